@@ -558,15 +558,15 @@ func (c *Client) Quit() error {
 	_ = c.hello() // ignore error; we're quitting anyhow
 
 	_, _, err := c.cmd(221, "QUIT")
+	c.mutex.Lock()
+	cerr := c.Text.Close()
+	c.isConnected = false
+	c.mutex.Unlock()
 	if err != nil {
 		return err
 	}
-	c.mutex.Lock()
-	err = c.Text.Close()
-	c.isConnected = false
-	c.mutex.Unlock()
 
-	return err
+	return cerr
 }
 
 // SetDebugLog enables the debug logging for incoming and outgoing SMTP messages
